@@ -14,7 +14,7 @@ common.bootstrap()
 
 from ..vclock import CLOCK
 from ..txn import (Cfg, run_scenario, check_payloads, check_wire, outcomes_of, expected_outcome, STATE_SEEN)
-from ..txn_workload import boundary_sizes, single_faults, random_plans, describe_plan
+from ..txn_workload import boundary_sizes, single_faults, random_plans, describe_plan, latency_single_faults
 from ..fnet import Plan
 from ..stacks import enc_len
 
@@ -159,12 +159,19 @@ def main():
                 continue
             run.case(("single", idx, repr(plan.table)))
             evaluate(run, label, cfg, plan, single=True)
+        if not long and F > 2 and (thorough or label == "windows" or idx % 5 == 0):
+            # the same single losses on a wire with latency
+            lk = ks if (thorough or F <= 16) else sorted(set(rng.sample(ks, 16)))
+            for plan in latency_single_faults(cfg, F, rng, frames=lk):
+                run.case(("latency", idx, repr(plan.table), plan.describe()["latency"] if not callable(plan.latency) else run.evaluations))
+                run.count("latency_single_fault_cases")
+                evaluate(run, label, cfg, plan, single=True)
         if not long:
             for j, plan in enumerate(random_plans(cfg, F, rng, 12 if thorough else 3)):
                 run.case(("random", idx, j, run.shard[0]))
                 run.count("random_plan_cases")
                 evaluate(run, label, cfg, plan, single=False)
-    run.finish(require=("scenarios", "payload_deliveries_compared", "segments", "single_fault_cases"))
+    run.finish(require=("scenarios", "payload_deliveries_compared", "segments", "single_fault_cases", "latency_single_fault_cases"))
 
 
 def replay(run):
